@@ -542,6 +542,12 @@ func (r *runState) taskFn(i, alt int, cancel context.CancelFunc) getoptions.Comm
 		if a.Cancel == "entry" {
 			r.doCancel(cancel, "cancel_in_task")
 		}
+		if a.SetMaxPar > 0 && sc.Phase2 == nil && !sc.Again && !sc.Serial && sc.MaxPar > 0 {
+			simrt.Lock()
+			r.res.Faults["set_max_parallel_during_run"]++
+			simrt.Unlock()
+			r.graphs[g].SetMaxParallel(a.SetMaxPar)
+		}
 		if sr := a.SetRetries; sr != nil && sc.Phase2 == nil && !sc.Again {
 			// the dependent cannot have started: it needs this task to return nil first
 			gr := r.graphs[g]
@@ -777,6 +783,14 @@ func (r *runState) main() {
 					gr.DepthFirstSort()
 				case "validate":
 					gr.Validate(nil)
+				case "validatetm":
+					// a TaskMap with errors of its own (a duplicate id, an unknown id asked for), unrelated to this graph
+					tm := dag.NewTaskMap()
+					nop := func(context.Context, *getoptions.GetOpt, []string) error { return nil }
+					tm.Add("dup", nop)
+					tm.Add("dup", nop)
+					tm.Get("never-added")
+					gr.Validate(tm)
 				case "string":
 					_ = gr.String()
 				}
@@ -998,7 +1012,12 @@ func (r *runState) runInner(ctx context.Context, in *InnerSpec) {
 	executing := 0
 	for j := 0; j < in.N; j++ {
 		j := j
-		ig.AddTask(dag.NewTask(fmt.Sprintf("inner%02d", j), func(context.Context, *getoptions.GetOpt, []string) error {
+		name := fmt.Sprintf("inner%02d", j)
+		if in.SameID && j == 0 {
+			// another Task object that happens to carry the ID of the task hosting this graph
+			name = r.id(in.Host)
+		}
+		ig.AddTask(dag.NewTask(name, func(context.Context, *getoptions.GetOpt, []string) error {
 			simrt.Lock()
 			executing++
 			seq := simrt.Note("inner-entry", fmt.Sprint(j))
@@ -1100,6 +1119,9 @@ func (r *runState) posthoc() {
 			for g := 0; g < r.ng; g++ {
 				if !r.returned[g] && !r.innerRunning {
 					r.fail("C16", "O16a", res.Seq, "Run of g%d never returns: %s (every started task function had returned=%v; waiting: %s)", g, res.Verdict, r.noneExecuting(), strings.Join(res.Unfinished, ","))
+					if r.cancelSeq != 0 && r.noneExecuting() {
+						r.fail("C14", "O14g", res.Seq, "the context was cancelled, every started task function has returned, and Run of g%d never returns (it must return an error): %s; waiting: %s", g, res.Verdict, strings.Join(res.Unfinished, ","))
+					}
 				}
 			}
 		} else if r.lockProbe != "" {
